@@ -100,3 +100,13 @@ Example C08_examples :
        Deriv (App2 PMul (Var 0) (Deriv inner (Const 3))) (Const 2)]
   = [Some (Some 24%Z); Some (Some 24%Z); Some (Some 24%Z); Some (Some 24%Z)].
 Proof. vm_compute. reflexivity. Qed.
+
+(* the scan of tracer.find_top_boxed_args as the translator reads it off /repo's source on this run: start at -1, a
+   strictly larger trace id becomes the new top, an equal one joins it - the constants of Tagged.find_top / boxed_at *)
+From AG Require Import EngineTie.
+From AGGen Require Import GenEngine.
+Theorem C08_find_top_follows_source :
+  (gen_find_top_init, gen_find_top_new_top_when, gen_find_top_join_when) = ((-1)%Z, CmpGt, CmpEq)
+  /\ SUPPLY = supply_of_source.
+Proof. split; [exact find_top_follows_source | reflexivity]. Qed.
+Print Assumptions C08_find_top_follows_source.
